@@ -29,6 +29,12 @@ Proof.
   eapply nth_error_In; exact Hk0.
 Qed.
 
+(* which module an event fetched from the event set belongs to: payload 0 / 1 is the
+   AsyncWakeupEvent of module 0 / 1 (fire), payload 2 + k the message that spawns task k *)
+Definition ev_module (pay : N) (ts : list task) (m : N) (fire : bool) : Prop :=
+  (pay < 2 /\ m = pay /\ fire = true) \/
+  (2 <= pay /\ fire = false /\ exists tk, nth_error ts (N.to_nat (pay - 2)) = Some tk /\ m = t_mod tk).
+
 (* ---- one iteration of Runtime::run ---- *)
 (* the loop ends iff the event set is empty; otherwise the fetched event is a wake-up or a
    message, and the state in which its module_event begins satisfies PreEv *)
@@ -38,7 +44,8 @@ Lemma loop_step_pre A0 A ts0 w : WInv A0 A ts0 (fun _ => False) w ->
     loop_step true w = inl (take_snaps (module_event true t m spawn fire w1)) /\
     PreEv A0 A ts0 (fun _ => False) w1 t m spawn fire /\
     spend (w_fes w) = x :: spend (w_fes w1) /\ w_tasks w1 = w_tasks w /\ (fire = true \/ spawn <> []) /\
-    (forall m', drv_of w1 m' = drv_of w m') /\ m < 2.
+    (forall m', drv_of w1 m' = drv_of w m') /\ m < 2 /\
+    sp_fetch (w_fes w) = (w_fes w1, OFetched (epay x) t) /\ ev_module (epay x) (w_tasks w) m fire.
 Proof.
   intros HW. pose proof HW as [Hsi Htc Hinert Harr Hnorecv Hbase Hdrv Hmsgs].
   assert (Hcase : spend (w_fes w) = [] \/ spend (w_fes w) <> []) by (destruct (spend (w_fes w)); [left; reflexivity|right; discriminate]).
@@ -52,7 +59,7 @@ Proof.
   set (w1 := set_fes w s').
   destruct (epay x <? 2) eqn:Ep.
   - (* the AsyncWakeupEvent of module [epay x] *)
-    exists x, w1, (etime x), (epay x), [], true. split; [reflexivity|]. split; [|split; [exact Hsp|split; [reflexivity|split; [left; reflexivity|split; [reflexivity|lia]]]]].
+    exists x, w1, (etime x), (epay x), [], true. split; [reflexivity|]. split; [|split; [exact Hsp|split; [reflexivity|split; [left; reflexivity|split; [reflexivity|split; [lia|split; [reflexivity|left; repeat split; lia]]]]]]].
     constructor; cbn [w1 set_fes w_fes w_now w_mail w_tasks w_owner w_nid].
     + exact Hsi'.
     + exact Htc'.
@@ -84,7 +91,7 @@ Proof.
     destruct (Mt x (or_introl eq_refl)) as (k & tk & E1 & Hk & Hun & E2 & E3); [lia|].
     rewrite E1, msg_of_nat. change (w_tasks w1) with (w_tasks w). rewrite Hk.
     cbn [map filter] in Mn. replace (2 <=? epay x) with true in Mn by lia. inversion Mn as [|? ? Hnotin Mn']; subst.
-    exists x, w1, (etime x), (t_mod tk), [k], false. split; [reflexivity|]. split; [|split; [exact Hsp|split; [reflexivity|split; [right; discriminate|split; [reflexivity|exact (base_mod _ _ _ _ _ _ _ _ Hbase Hk)]]]]].
+    exists x, w1, (etime x), (t_mod tk), [k], false. split; [reflexivity|]. split; [|split; [exact Hsp|split; [reflexivity|split; [right; discriminate|split; [reflexivity|split; [exact (base_mod _ _ _ _ _ _ _ _ Hbase Hk)|split; [rewrite ?E1; reflexivity|right; rewrite ?E1; split; [unfold msg_of; lia|split; [reflexivity|exists tk; rewrite msg_of_nat; split; [exact Hk|reflexivity]]]]]]]]]].
     constructor; cbn [w1 set_fes w_fes w_now w_mail w_tasks w_owner w_nid].
     + exact Hsi'.
     + exact Htc'.
@@ -134,7 +141,7 @@ Lemma loop_step_measure A0 ts0 w : WInvE A0 ts0 (fun _ => False) w ->
   | inr _ => True
   end.
 Proof.
-  intros [A HW]. destruct (loop_step_pre A0 A ts0 w HW) as [(Esp & ->)|(x & w1 & t & m & spawn & fire & -> & HP & Hsp & Hts & Hcase & Hdr & Hm)]; [exact I|].
+  intros [A HW]. destruct (loop_step_pre A0 A ts0 w HW) as [(Esp & ->)|(x & w1 & t & m & spawn & fire & -> & HP & Hsp & Hts & Hcase & Hdr & Hm & _)]; [exact I|].
   destruct (module_event_measure _ _ _ _ _ _ _ _ _ HP) as (_ & H2 & H3). specialize (H2 Hcase).
   unfold mu. change (w_tasks (take_snaps ?W)) with (w_tasks W). change (w_fes (take_snaps ?W)) with (w_fes W).
   change (drv_of (take_snaps ?W) ?M) with (drv_of W M).
@@ -195,4 +202,23 @@ Proof.
   pose proof (loop_step_winv A0 ts0 w HW) as H. destruct (loop_step true w) as [w'|w'].
   - exact (IH w' H).
   - destruct H as [-> Hsp]. split; assumption.
+Qed.
+
+(* ---- the event that wakes a timer is stamped exactly with its deadline ---- *)
+(* at every event boundary of the run: the slots with timers that the next event's activation
+   pops from its module's driver all have the deadline t of that event *)
+Lemma event_woken_exact A0 ts0 w f pay t m fire : WInvE A0 ts0 (fun _ => False) w ->
+  sp_fetch (w_fes w) = (f, OFetched pay t) -> ev_module pay (w_tasks w) m fire ->
+  forall d es, In (d, es) (fst (activate t (if fire then sched_fire t (drv_of w m) else drv_of w m))) -> es <> [] -> d = t.
+Proof.
+  intros [A HW] Hf Hev d es Hin Hne.
+  destruct (loop_step_pre A0 A ts0 w HW) as [(Esp & _)|(x & w1 & t' & m' & spawn & fire' & _ & HP & _ & _ & _ & Hdr & _ & Hf' & Hev')].
+  { rewrite (fetch_none _ Esp) in Hf. discriminate. }
+  rewrite Hf in Hf'. injection Hf' as -> -> ->.
+  assert (E : m' = m /\ fire' = fire).
+  { destruct Hev as [(H1 & E1 & E2)|(H1 & E1 & tk & Hk & E2)], Hev' as [(G1 & F1 & F2)|(G1 & F1 & tk' & Hk' & F2)]; try lia; try (split; congruence);
+      rewrite Hk in Hk'; injection Hk' as <-; split; congruence. }
+  destruct E as [Em Ef]. subst m' fire'. destruct es as [|id es']; [contradiction Hne; reflexivity|].
+  rewrite <- (Hdr m) in Hin.
+  destruct (ev_woken _ _ _ _ _ _ _ _ _ HP d (id :: es') id Hin (or_introl eq_refl)) as (k0 & tk0 & a0 & s0 & _ & _ & _ & _ & _ & _ & Edt & _). exact Edt.
 Qed.
